@@ -35,6 +35,7 @@ CONSTANTS MinFields, MaxFields,   \* structured arrays of MinFields..MaxFields f
           WithPlain,              \* TRUE: plain arrays too (when MinFields = 1)
           Kinds,                  \* field kinds used (subset of BOKinds)
           Need,                   \* kinds that must occur among the fields (subset of Kinds; {} = no restriction)
+          AloneWithOrderless,     \* TRUE: only tables with exactly ONE field that has a byte order (in every position)
           Spells,                 \* order characters the initial dtype is spelled with
           Layouts,                \* memory layouts of the initial array (subset of BOLayouts)
           Writes,                 \* writeability of the initial array (subset of BOWrites)
@@ -45,6 +46,7 @@ CONSTANTS MinFields, MaxFields,   \* structured arrays of MinFields..MaxFields f
           MaxDepth,               \* history length
           FixedDetect,            \* mechanism variants, see ByteOrder.tla
           NestedDetect,
+          UnicodeDetect,
           RetypeAlways,
           SwapFirst,
           CacheDtype,             \* TRUE: a deviating MODEL variant in which the swapped dtype object is memoised
@@ -109,6 +111,7 @@ ChooseKinds ==
     /\ \E n \in MinFields..MaxFields : \E ks \in [1..n -> Kinds] :
        \E pl \in (IF n = 1 /\ WithPlain /\ ks[1] # "N" THEN BOOLEAN ELSE {FALSE}) :
           /\ Need \subseteq {ks[i] : i \in 1..n}
+          /\ (AloneWithOrderless => Cardinality({i \in 1..n : ks[i] \in BOMultiKinds}) = 1)
           /\ init' = [NoInit EXCEPT !.plain = pl, !.kinds = ks]
     /\ phase' = "kinds" /\ UNCHANGED <<ops, snaps, arrs, bufs, dtos, cur>> /\ UNCHANGED wvars
 
@@ -319,7 +322,7 @@ MechRefines == N >= 1 /\ IsConv(N) =>
     LET pre == snaps[N]
         lay == arrs[pre.res].lay          \* layouts never change once an object exists
         m == BOMechStep(init.kinds, BOLayContiguous(lay, init.plain), Cur(N).w, Cur(N), ops[N],
-                        FixedDetect, NestedDetect, RetypeAlways, SwapFirst)
+                        FixedDetect, NestedDetect, UnicodeDetect, RetypeAlways, SwapFirst)
         refused == snaps[N + 1].err # "none"
         silent == MayRefuse(Cur(N), ops[N].inplace) /\ ~MustSwapIn(Cur(N), ops[N].fn)   \* both outcomes allowed: the code's is one
     IN /\ silent \/ m.rejected = refused
